@@ -291,6 +291,9 @@ def is_abstract(v):
 # ----------------------------------------------------------------------------
 # the interpreter
 # ----------------------------------------------------------------------------
+INLINED: set = set()  # qualified names of the repository functions interpreted in this process (evidence: what was analysed)
+
+
 class Interp:
     def __init__(self, program: Program):
         self.p = program
@@ -520,6 +523,7 @@ class Interp:
         if fn.owner is not None:
             env.vars["__class__"] = fn.owner
         self.calls_resolved += 1
+        INLINED.add(fn.qualname)
         if self.trace_calls is not None:
             self.trace_calls.append((fn.qualname, site))
         self.depth += 1
